@@ -462,7 +462,7 @@ func (g *gen) applyContractFn(ctr *Contract, key string, callee *ssa.Function, a
 
 // terminationOnly: the contract says nothing but how the recursion ends
 func (c *Contract) terminationOnly() bool {
-	return (c.Decreases != nil || c.TerminatesBy != "") && len(c.Requires) == 0 && len(c.Ensures) == 0 && !c.HasAssign && len(c.Calls) == 0 &&
+	return (c.Decreases != nil || c.TerminatesBy != "" || c.TotalOrder != "") && len(c.Requires) == 0 && len(c.Ensures) == 0 && !c.HasAssign && len(c.Calls) == 0 &&
 		!c.Pure && !c.Trusted && !c.Fresh && len(c.Emits) == 0 && len(c.Sets) == 0 && len(c.Abstracts) == 0 && !c.NoSafety && !c.AstValid && !c.DynCallsFrame
 }
 
